@@ -838,6 +838,11 @@ package twig
 //@   atcall (*ZeroAllocTokenizer).AddToken#4 a1 == TOKEN_TEXT && posT() < nextTagPos && a2 == substr(srcT(), posT(), nextTagPos) && openAt(srcT(), nextTagPos) && noOpen(srcT(), posT(), nextTagPos)
 //@   atcall (*ZeroAllocTokenizer).AddToken#5 a2 == "" && openAt(srcT(), nextTagPos) && noOpen(srcT(), posT(), nextTagPos) && a1 == startTok(srcT(), nextTagPos) && tagLength == ite(srcT()[nextTagPos + 1] != 35 && dashAt(srcT(), nextTagPos + 2), 3, 2)
 //@   atcall (*ZeroAllocTokenizer).AddToken#6 a1 == TOKEN_TEXT && tagType == TOKEN_COMMENT_START && a2 == substr(srcT(), posT(), posT() + nth(endPos, 2))
+//@   atcall (*ZeroAllocTokenizer).AddToken#8 tagType == TOKEN_COMMENT_START ==> a1 == TOKEN_COMMENT_END && endTagLength == 2 && closeAt(srcT(), posT() + nth(endPos, 2), 35) && noClose(srcT(), posT(), posT() + nth(endPos, 2), 35)
+//@   atcall (*ZeroAllocTokenizer).AddToken#8 (tagType == TOKEN_VAR_START || tagType == TOKEN_VAR_START_TRIM) && endTagLength == 2 ==> a1 == TOKEN_VAR_END && closeAt(srcT(), posT() + nth(endPos, 2), 125) && noClose(srcT(), posT(), posT() + nth(endPos, 2), 125) && !dashCloser(srcT(), posT(), posT() + nth(endPos, 2))
+//@   atcall (*ZeroAllocTokenizer).AddToken#8 (tagType == TOKEN_VAR_START || tagType == TOKEN_VAR_START_TRIM) && endTagLength != 2 ==> a1 == TOKEN_VAR_END_TRIM && endTagLength == 3 && srcT()[posT() + nth(endPos, 2)] == 45 && closeAt(srcT(), posT() + nth(endPos, 2) + 1, 125) && noClose(srcT(), posT(), posT() + nth(endPos, 2) + 1, 125)
+//@   atcall (*ZeroAllocTokenizer).AddToken#8 (tagType == TOKEN_BLOCK_START || tagType == TOKEN_BLOCK_START_TRIM) && endTagLength == 2 ==> a1 == TOKEN_BLOCK_END && closeAt(srcT(), posT() + nth(endPos, 2), 37) && noClose(srcT(), posT(), posT() + nth(endPos, 2), 37) && !dashCloser(srcT(), posT(), posT() + nth(endPos, 2))
+//@   atcall (*ZeroAllocTokenizer).AddToken#8 (tagType == TOKEN_BLOCK_START || tagType == TOKEN_BLOCK_START_TRIM) && endTagLength != 2 ==> a1 == TOKEN_BLOCK_END_TRIM && endTagLength == 3 && srcT()[posT() + nth(endPos, 2)] == 45 && closeAt(srcT(), posT() + nth(endPos, 2) + 1, 37) && noClose(srcT(), posT(), posT() + nth(endPos, 2) + 1, 37)
 //@   atcall (*ZeroAllocTokenizer).AddToken#9 a1 == TOKEN_EOF && a2 == ""
 // (TokenizeExpression borrows source/position/line for the expression text and puts them back)
 //@ func (*ZeroAllocTokenizer).TokenizeExpression props: C05
